@@ -39,6 +39,8 @@ type Pointer struct {
 	Path   []int      // struct field indices below the cell
 	ArrLen int64      // with IsArr: this is a pointer to an array [ArrLen]Elem starting at Idx
 	IsArr  bool
+	ExtField bool     // location inside an external (unmodelled) object
+	Enc    bool       // Root may be an interior-site encoding (negative) of a field of another object
 	Fresh  bool       // freshly allocated in this function (non-nil, writable)
 }
 
